@@ -129,6 +129,7 @@ func NewSortValue(val value.Primary, flags *option.Flags) *SortValue {
 		t := dt.(*value.Datetime).Raw()
 		sortValue.Type = DatetimeType
 		sortValue.Datetime = t
+		sortValue.String = textOfString(val)
 		value.Discard(dt)
 	} else if b := value.ToBoolean(val); !value.IsNull(b) {
 		sortValue.Type = BooleanType
@@ -137,6 +138,7 @@ func NewSortValue(val value.Primary, flags *option.Flags) *SortValue {
 		} else {
 			sortValue.Integer = 0
 		}
+		sortValue.String = textOfString(val)
 	} else if s, ok := val.(*value.String); ok {
 		sortValue.Type = StringType
 		sortValue.String = strings.ToUpper(option.TrimSpace(s.Raw()))
@@ -150,6 +152,26 @@ func NewSortValue(val value.Primary, flags *option.Flags) *SortValue {
 	}
 
 	return sortValue
+}
+
+// textOfString returns the text a string is ordered by. Every other value has no text.
+func textOfString(val value.Primary) string {
+	if s, ok := val.(*value.String); ok {
+		return strings.ToUpper(option.TrimSpace(s.Raw()))
+	}
+	return ""
+}
+
+// hasText reports whether the value has a text to be ordered by among values of other types.
+// A datetime or a boolean has one only if it was read from a string ('2012-01-01', 'true').
+func (v *SortValue) hasText() bool {
+	switch v.Type {
+	case IntegerType, FloatType, StringType:
+		return true
+	case DatetimeType, BooleanType:
+		return 0 < len(v.String)
+	}
+	return false
 }
 
 func (v *SortValue) Less(compareValue *SortValue) ternary.Value {
@@ -224,6 +246,16 @@ func (v *SortValue) Less(compareValue *SortValue) ternary.Value {
 		}
 	}
 
+	// Two strings that are not both numbers or both datetimes are compared as texts by the comparison
+	// operators ('abc' < 'true' < 'zed'): a word that reads as a boolean or as a datetime has its place
+	// among the other words of its column.
+	if v.hasText() && compareValue.hasText() {
+		if v.String == compareValue.String {
+			return ternary.UNKNOWN
+		}
+		return ternary.ConvertFromBool(v.String < compareValue.String)
+	}
+
 	return ternary.UNKNOWN
 }
 
@@ -235,8 +267,11 @@ func (v *SortValue) EquivalentTo(compareValue *SortValue) bool {
 	switch v.Type {
 	case IntegerType:
 		switch compareValue.Type {
-		case IntegerType, BooleanType:
+		case IntegerType:
 			return v.Integer == compareValue.Integer
+		case BooleanType:
+			// a boolean read from a string is ordered as a text
+			return v.Integer == compareValue.Integer && !compareValue.hasText()
 		case FloatType:
 			return v.Float == compareValue.Float
 		}
@@ -255,8 +290,13 @@ func (v *SortValue) EquivalentTo(compareValue *SortValue) bool {
 		}
 	case BooleanType:
 		switch compareValue.Type {
-		case BooleanType, IntegerType:
+		case BooleanType:
+			if v.hasText() && compareValue.hasText() {
+				return v.String == compareValue.String
+			}
 			return v.Integer == compareValue.Integer
+		case IntegerType:
+			return v.Integer == compareValue.Integer && !v.hasText()
 		}
 	case StringType:
 		switch compareValue.Type {
